@@ -350,12 +350,22 @@ def rule_hw(ctx):
   w.run()
   n = P("param", "n")
   bl = sym.mk("bitlen", n)
+  # the two thresholds by role, not by name: the cut-off is what the best heuristic value is compared with when the search is abandoned early (a branch
+  # condition of the search loop), the weak threshold what it is compared with in the verdict
   tw = tc = None
   for e in w.events:
-    if e.kind == "assign" and e.data["name"] == "threshold_weak":
-      tw = as_poly(e.data["value"])
-    if e.kind == "assign" and e.data["name"] == "threshold_cutoff":
-      tc = as_poly(e.data["value"])
+    if e.kind == "return" and isinstance(e.data.get("value"), Seq) and e.data["value"].items and isinstance(e.data["value"].items[0], tuple):
+      c = e.data["value"].items[0]
+      if c[0] == "cmp" and c[1] in ("LtE", "Lt", "GtE", "Gt") and isinstance(c[2], Poly) and isinstance(c[3], Poly):
+        side = c[3] if c[1] in ("LtE", "Lt") else c[2]
+        if any(t_.kind == "bitlen" for t_ in side.all_atoms()):
+          tw = side
+    for c, pol, node in e.state.pc:
+      if isinstance(c, tuple) and c and c[0] == "cmp" and c[1] in ("LtE", "Lt", "GtE", "Gt") and isinstance(c[2], Poly) and isinstance(c[3], Poly):
+        for side, other in ((c[2], c[3]), (c[3], c[2])):
+          if any(t_.kind == "bitlen" for t_ in side.all_atoms()) and not any(t_.kind == "bitlen" for t_ in other.all_atoms()) and any(t_.kind == "sym" for t_ in other.all_atoms()) \
+             and not any(t_.kind == "param" and t_ != n.as_atom() for t_ in side.all_atoms()):
+            tc = side
   ok = tw is not None and tc is not None and (tw - (bl - 12)).is_zero() and (tc - bl).is_zero()
   ctx.record(R, f.where, "threshold_weak = bitlen - 12, threshold_cutoff = bitlen", ok, "documented thresholds" if ok else "thresholds are %r / %r" % (tw, tc))
   dc, dm = fold.try_fold(f.default_of("cutoff")), fold.try_fold(f.default_of("maxsteps"))
